@@ -107,20 +107,58 @@ def stride_canon(repo: Repo, chk: Check, rule: str = "C19.stride-canon") -> None
     if not loops:
         raise AnalysisError(f"{f.where}: loop not found")
     lp = loops[0].node
-    if not (isinstance(lp.target, ast.Tuple) and len(lp.target.elts) == 2):
+    if not (isinstance(lp.target, ast.Tuple) and len(lp.target.elts) == 2 and all(isinstance(x, ast.Name) for x in lp.target.elts)):
         raise AnalysisError(f"{f.where}: loop target is not (ub, ts)")
-    ub, ts = (e.id for e in lp.target.elts)  # type: ignore[attr-defined]
+    # which loop variable is the bound, which the stride: by the provenance of the zipped sequences, not by position or name
+    it = loops[0].expand(lp.iter)
+    if not (isinstance(it, ast.Call) and callee_name(it) == "zip" and len(it.args) == 2):
+        raise AnalysisError(f"{f.where}: loop does not zip bounds and strides")
+    kinds = ["ub" if "upper_bounds" in ast.unparse(fl.cone(a, loops[0], inline=0)) else "ts" if "temporal_strides" in ast.unparse(fl.cone(a, loops[0], inline=0)) else "?"
+             for a in it.args]
+    if sorted(kinds) != ["ts", "ub"]:
+        raise AnalysisError(f"{f.where}: zipped sequences are not recognised as upper bounds and temporal strides")
+    ub_t, ts_t = (lp.target.elts[kinds.index(k)].id for k in ("ub", "ts"))  # type: ignore[attr-defined]
+
+    def is_var(e_: ast.expr, site: Site, var: str, other: str) -> bool:
+        """e denotes this iteration's bound (resp. stride): the loop variable itself or its `.data`, through locals"""
+        x = norm.primary(site.expand(e_))
+        if isinstance(x, ast.Attribute) and x.attr == "data":
+            x = x.value
+        if isinstance(x, ast.Name) and x.id == var:
+            return True
+        if isinstance(x, ast.Name):
+            # a local that is re-bound on some path (`ts = 0` for a disabled dimension): look at all its definitions
+            class _Data(ast.NodeTransformer):
+                def visit_Call(self, n_: ast.Call) -> ast.AST:
+                    self.generic_visit(n_)
+                    if isinstance(n_.func, ast.Name) and n_.func.id == "__ctl__" and n_.args:
+                        return n_.args[0]  # the value, without the conditions it is control-dependent on
+                    return n_
+
+            import copy as _copy
+            names = norm.free_names(_Data().visit(_copy.deepcopy(fl.cone(x, site, inline=0))))
+            return var in names and other not in names
+        return False
+
+    def fact_is(site: Site, var: str, other: str, const: int) -> bool:
+        for fact in site.facts:
+            if fact.kind == "atom":
+                m_ = norm.any_match([f"$e == {const}"], fact.expr)
+                if m_ is not None and is_var(m_["e"], site, var, other):
+                    return True
+        return False
+
     merges = [s for s in fl.stmts(ast.AugAssign) if s.reachable and isinstance(s.node.op, ast.Mult) and isinstance(s.node.target, ast.Subscript)]
     if not merges:
         raise AnalysisError(f"{f.where}: fold `bounds[-1] *= ub` not found")
     for s in merges:
         lst = ast.unparse(s.node.target.value)  # type: ignore[attr-defined]
-        okv = ast.unparse(s.node.target.slice) == "-1" and ast.unparse(s.node.value) == ub  # type: ignore[attr-defined]
+        okv = ast.unparse(s.node.target.slice) == "-1" and is_var(s.node.value, s, ub_t, ts_t)  # type: ignore[attr-defined]
         cond = None
         for fact in s.facts:
             if fact.kind == "atom":
-                m = norm.any_match([f"{lst}[-1] * $st[-1] == {ts}", f"$st[-1] * {lst}[-1] == {ts}", f"{ts} == {lst}[-1] * $st[-1]"], fact.expr)
-                if m is not None:
+                m = norm.any_match([f"{lst}[-1] * $st[-1] == $t", f"$st[-1] * {lst}[-1] == $t", f"$t == {lst}[-1] * $st[-1]"], fact.expr)
+                if m is not None and is_var(m["t"], s, ts_t, ub_t):
                     cond = (fact, ast.unparse(m["st"]))
         chk.result(okv and cond is not None, rule, f"{f.key}:fold-condition", s.where(),
                    "a dimension is folded into the last kept one only if it continues it exactly (kept bound * kept stride == stride)",
@@ -128,10 +166,17 @@ def stride_canon(repo: Repo, chk: Check, rule: str = "C19.stride-canon") -> None
                    "(e.g. the extent of a dropped unit dimension is compared instead): the folded pattern addresses other elements", s.fact_texts)
         if cond is not None:
             # the stride list compared against is the one that is appended to together with the bounds
-            apps = [x for x in fl.calls("append") if x.reachable and ast.unparse(x.node.func.value) == cond[1] and ast.unparse(x.node.args[0]) == ts]  # type: ignore[attr-defined]
+            apps = [x for x in fl.calls("append") if x.reachable and ast.unparse(x.node.func.value) == cond[1] and is_var(x.node.args[0], x, ts_t, ub_t)]  # type: ignore[attr-defined]
             chk.result(bool(apps), rule, f"{f.key}:kept-lists", s.where(), "the comparison uses the lists of kept bounds/strides")
-    drops = [s for s in fl.stmts(ast.Pass) if s.reachable and s.loops]
-    chk.result(bool(drops) and all(has_fact(s, [f"{ub} == 1"]) for s in drops), rule, f"{f.key}:drop-unit", drops[0].where() if drops else f.where,
+    # a dimension disappears on an iteration that neither appends nor folds: that must be a unit dimension
+    keeps = lambda st_: any(isinstance(n_, ast.Call) and callee_name(n_) == "append" for n_ in ast.walk(st_)) or (  # noqa: E731
+        isinstance(st_, ast.AugAssign) and isinstance(st_.target, ast.Subscript))
+    fl2 = Flow(f, repo, events={"kept": lambda st_: not isinstance(st_, (ast.If, ast.For, ast.While)) and keeps(st_)})
+    drops = [s for s in fl2.stmts(ast.Pass, ast.Continue) if s.reachable and s.loops and not any(
+        fa.kind == "atom" and fa.text == "__event__('kept')" for fa in s.facts)]
+    if not drops:
+        raise AnalysisError(f"{f.where}: the path on which a unit dimension is dropped was not found (neither `pass` nor `continue` without a kept element)")
+    chk.result(all(fact_is(s, ub_t, ts_t, 1) for s in drops), rule, f"{f.key}:drop-unit", drops[0].where(),
                "a dimension is dropped only for bound 1", "a dimension is dropped under another condition than bound == 1")
     early = [s for s in fl.stmts(ast.Return) if s.reachable and ast.unparse(s.node.value) == "self"]
     chk.result(bool(early) and all(any("spatial_strides" in t and "IntAttr(0)" in t for t in s.fact_texts) for s in early), rule, f"{f.key}:zero-spatial", f.where,
@@ -228,7 +273,14 @@ def fixpoint(repo: Repo, chk: Check) -> None:
     rets = [s for s in fl.stmts(ast.Return) if s.reachable]
     base = [s for s in rets if not any(isinstance(x, ast.Call) and callee_name(x) == f.name for x in ast.walk(s.node))]
     rec = [s for s in rets if s not in base]
-    okb = bool(base) and all(every_alt_has(s, [f"$n == {e}", f"{e} == $n"]) for s in base)
+    def _is_fixpoint_return(s: Site) -> bool:
+        if every_alt_has(s, [f"$n == {e}", f"{e} == $n"]):
+            return True
+        # the input itself, for an expression no rewrite applies to (only binary operations are rewritten)
+        v_ = s.expand(s.node.value) if s.node.value is not None else None
+        return isinstance(v_, ast.Name) and v_.id == e and every_alt_has(s, [f"not isinstance({e}, AffineBinaryOpExpr)"])
+
+    okb = bool(base) and all(_is_fixpoint_return(s) for s in base)
     chk.result(okb, "C19.idempotence-shape", f"{f.key}:fixpoint-test", base[0].where() if base else f.where, "a result is returned only if it equals the input of this pass",
                "canonicalize_expr can return an expression that a further pass would still change (no fixpoint test against the input)", base[0].fact_texts if base else [])
     okr = bool(rec) and all(ast.unparse(s.node.value.args[0]) != e for s in rec if isinstance(s.node.value, ast.Call))
@@ -271,8 +323,46 @@ def pack(repo: Repo, chk: Check) -> None:
     wl = [n for n in ast.walk(f.node) if isinstance(n, ast.While)]
     okr = False
     for w in wl:
-        src = ast.unparse(w)
-        okr = "> 1" in ast.unparse(w.test) and re.search(r"(\w+), (\w+), \*(\w+) = ", src) is not None and "OrIOp(" in src and re.search(r"= \[\*(\w+), (\w+)\.result\]", src) is not None
+        mt = norm.match(T("len($L) > 1"), norm.canon(w.test))
+        if mt is None or not isinstance(mt["L"], ast.Name):
+            continue
+        L = mt["L"].id
+        alias: dict[str, str] = {}  # local -> the part of L it stands for
+        or_names: set[str] = set()
+        or_args: list[str] = []
+        new_list: ast.expr | None = None
+        for n in ast.walk(w):
+            if isinstance(n, ast.Assign) and len(n.targets) == 1 and isinstance(n.targets[0], ast.Tuple) and isinstance(n.value, ast.Name) and n.value.id == L:
+                elts = n.targets[0].elts
+                for i_, t_ in enumerate(elts):
+                    if isinstance(t_, ast.Name):
+                        alias[t_.id] = f"{L}[{i_}]"
+                    elif isinstance(t_, ast.Starred) and isinstance(t_.value, ast.Name) and i_ == len(elts) - 1:
+                        alias[t_.value.id] = f"{L}[{i_}:]"
+        res = lambda e_: alias.get(e_.id, e_.id) if isinstance(e_, ast.Name) else ast.unparse(e_)  # noqa: E731
+        for n in ast.walk(w):
+            if isinstance(n, ast.Call) and callee_name(n) == "OrIOp" and len(n.args) == 2:
+                or_args = sorted(res(a_) for a_ in n.args)
+            if isinstance(n, ast.NamedExpr) and isinstance(n.value, ast.Call) and callee_name(n.value) == "OrIOp":
+                or_names.add(n.target.id)
+            if isinstance(n, ast.Assign) and isinstance(n.value, ast.Call) and callee_name(n.value) == "OrIOp" and isinstance(n.targets[0], ast.Name):
+                or_names.add(n.targets[0].id)
+            if isinstance(n, ast.Assign) and len(n.targets) == 1 and isinstance(n.targets[0], ast.Name) and n.targets[0].id == L:
+                new_list = n.value
+        if or_args != [f"{L}[0]", f"{L}[1]"] or new_list is None:
+            continue
+        parts: list[str] = []
+        def flat(e_: ast.expr) -> None:
+            if isinstance(e_, (ast.List, ast.Tuple)):
+                for x_ in e_.elts:
+                    parts.append("*" + res(x_.value) if isinstance(x_, ast.Starred) else res(x_))
+            elif isinstance(e_, ast.BinOp) and isinstance(e_.op, ast.Add):
+                flat(e_.left)
+                flat(e_.right)
+            else:
+                parts.append("*" + res(e_))
+        flat(new_list)
+        okr = sorted(parts) == sorted([f"*{L}[2:]"] + [f"{nm}.result" for nm in or_names][:1]) and len(or_names) == 1
     chk.result(okr, "C19.pack", f"{f.key}:or-reduction", f.where, "two values are replaced by their or until one is left; the rest is kept",
                "the or-reduction no longer keeps all remaining values")
 
